@@ -23,6 +23,7 @@ type Config struct {
 	WorkDir         string
 	MaxViolPerLabel int
 	Seed            int64
+	BlockChoices    bool   // explore every choice of the next thread at blocking points (else round-robin)
 	Property        string // obligations tagged with other properties are skipped
 }
 
